@@ -173,6 +173,63 @@ func c07Derive(k *core.Case) {
 			return
 		}
 	}
+	// (a) keys handed out stay what they were when OTHER SAs (IKE and Child) are derived afterwards
+	snap := [][]byte{append([]byte{}, key.SK_d...), append([]byte{}, key.SK_ai...), append([]byte{}, key.SK_ar...), append([]byte{}, key.SK_ei...),
+		append([]byte{}, key.SK_er...), append([]byte{}, key.SK_pi...), append([]byte{}, key.SK_pr...)}
+	other := newInfoKey(k.R.Intn(3), k.R.Intn(3), k.R.Intn(3), d)
+	if err := other.GenerateKeyForIKESA(k.R.Bytes(k.R.Range(1, 90)), k.R.Bytes(k.R.Range(1, 300)), k.R.U64(), k.R.U64()); err == nil {
+		ck := newChild(k.R.Intn(3), k.R.Intn(4))
+		_ = ck.GenerateKeyForChildSA(other, k.R.Bytes(40))
+	}
+	for j, g := range [][]byte{key.SK_d, key.SK_ai, key.SK_ar, key.SK_ei, key.SK_er, key.SK_pi, key.SK_pr} {
+		if !bytes.Equal(g, snap[j]) {
+			k.Violate("history", "ike-keys-of-an-earlier-SA-changed-by-a-later-derivation", fmt.Sprintf("SK field #%d of the first SA changed after another SA was derived", j), w)
+			return
+		}
+	}
+	k.Count("held_sa_keys_rechecked", 1)
+	// (b) the same object keyed a second time (e.g. an IKE_SA_INIT retry): keys AND ready-made objects follow the new inputs
+	if k.Index%2 == 1 {
+		nonce2, shared2 := k.R.Bytes(pickLen(k.R, k.Index/3)), k.R.Bytes(pickLen(k.R, k.Index/5))
+		spii2, spir2 := k.R.U64(), k.R.U64()
+		if err := key.GenerateKeyForIKESA(nonce2, shared2, spii2, spir2); err != nil {
+			k.Violate("derive-error", "rekey-same-object-error", err.Error(), w)
+			return
+		}
+		want2 := ref.DeriveIKE(p, s, nonce2, shared2, spii2, spir2)
+		if bad := cmpKeys(key, want2); bad != "" {
+			k.Violate("mismatch", "ike-key-mismatch/second-keying-of-one-object", bad, w)
+			return
+		}
+		probe2 := k.R.Bytes(33)
+		for _, o := range []struct {
+			n   string
+			h   hash.Hash
+			alg int
+			key []byte
+		}{{"Integ_i", key.Integ_i, i, want2.Ai}, {"Integ_r", key.Integ_r, i, want2.Ar}, {"Prf_d", key.Prf_d, p, want2.D}, {"Prf_i", key.Prf_i, p, want2.Pi}, {"Prf_r", key.Prf_r, p, want2.Pr}} {
+			if o.h == nil || !bytes.Equal(probeHash(o.h, probe2), ref.HMAC(o.alg, o.key, probe2)) {
+				k.Violate("mismatch", "object-keyed-wrong-after-second-keying/"+o.n, o.n+" still works under the keys of the first keying", w)
+				return
+			}
+		}
+		for _, o := range []struct {
+			n   string
+			c   interface{ Encrypt([]byte) ([]byte, error) }
+			key []byte
+		}{{"Encr_i", key.Encr_i, want2.Ei}, {"Encr_r", key.Encr_r, want2.Er}} {
+			ct, err := o.c.Encrypt(append([]byte{}, probe2...))
+			if err != nil {
+				k.Violate("mismatch", "object-encrypt-failed/"+o.n, err.Error(), w)
+				return
+			}
+			if pt, err := ref.CBCDecrypt(o.key, ct[:16], ct[16:]); err != nil || !bytes.HasPrefix(pt, probe2) {
+				k.Violate("mismatch", "object-keyed-wrong-after-second-keying/"+o.n, o.n+" still encrypts under the key of the first keying", w)
+				return
+			}
+		}
+		k.Count("same_object_keyed_twice", 1)
+	}
 	k.Distinct(fmt.Sprintf("%d%d%d%d|n%s|s%s", e, i, p, d, lenClass(len(nonce)), lenClass(len(shared))))
 	k.Count("prf_"+libsa.PrfNames[p], 1)
 	if k.WantSample() {
@@ -290,7 +347,7 @@ func c07(c *core.Ctx) {
 	c.Info("assumptions", "reference HMAC/prf+ in /verif/harness/ref; lengths table typed from RFC 7296/4868/2404/2403")
 	c.Family("derive", c.N(54*100, 54*100000), c07Derive)
 	c.Family("two-party", c.N(162, 30000), c07TwoParty)
-	c.Require("two_party_runs", "two_party_shared_secret_with_leading_zeros")
+	c.Require("two_party_runs", "two_party_shared_secret_with_leading_zeros", "held_sa_keys_rechecked", "same_object_keyed_twice")
 }
 
 // ---------------------------------------------------------------------------
@@ -384,6 +441,15 @@ func c08History(k *core.Case) {
 				libUnprotect(b, false, long, k.R.Bool())
 			}
 		}
+		if k.R.Chance(1, 8) {
+			// the IKE SA object is keyed again (IKE_SA_INIT retry / object reuse): later Child SAs follow the NEW SK_d
+			if err := long.GenerateKeyForIKESA(k.R.Bytes(k.R.Range(1, 80)), k.R.Bytes(k.R.Range(1, 260)), k.R.U64(), k.R.U64()); err == nil {
+				raw.K.D, raw.K.Ai, raw.K.Ar = append([]byte{}, long.SK_d...), append([]byte{}, long.SK_ai...), append([]byte{}, long.SK_ar...)
+				raw.K.Ei, raw.K.Er = append([]byte{}, long.SK_ei...), append([]byte{}, long.SK_er...)
+				raw.K.Pi, raw.K.Pr = append([]byte{}, long.SK_pi...), append([]byte{}, long.SK_pr...)
+				k.Count("ike_sa_rekeyed_in_history", 1)
+			}
+		}
 		e, i := k.R.Intn(3), k.R.Intn(4)
 		nonces := k.R.Bytes(k.R.Range(0, 100))
 		fresh, _ := libsa.NewKey(raw)
@@ -422,6 +488,7 @@ func c08(c *core.Ctx) {
 	c.Info("assumptions", "each derivation uses a new ChildSAKey (the method appends to the receiver's slices; reusing a ChildSAKey is outside the property)")
 	c.Family("derive", c.N(20000, 30000000), c08One)
 	c.Family("history", c.N(108, 100000), c08History)
+	c.Require("ike_sa_rekeyed_in_history")
 }
 
 // ---------------------------------------------------------------------------
@@ -472,6 +539,41 @@ func c16One(k *core.Case, ikl, ckl int) {
 			return
 		}
 	}
+	// the caller's side of the contract, in the same case: (a) results are the caller's — overwriting them must not
+	// influence a later call; (b) the key buffers are the caller's — refreshing them IN PLACE (same backing arrays,
+	// same lengths, same identity: a re-authentication) must give the keys of the NEW contents; (c) results handed out
+	// earlier stay what they were
+	held := [][]byte{append([]byte{}, kencr...), append([]byte{}, kaut...), append([]byte{}, kre...), append([]byte{}, msk...), append([]byte{}, emsk...)}
+	first := [][]byte{kencr, kaut, kre, msk, emsk}
+	if k.Index%2 == 0 {
+		for _, o := range first {
+			scribble(o)
+		}
+		a, b, c2, d2, e2, err2 := eap.EapAkaPrimePRF(ik, ck, string(id))
+		if err2 != nil || !bytes.Equal(a, held[0]) || !bytes.Equal(b, held[1]) || !bytes.Equal(c2, held[2]) || !bytes.Equal(d2, held[3]) || !bytes.Equal(e2, held[4]) {
+			k.Violate("history", "prf'-result-depends-on-earlier-returned-slices", "after the caller overwrote the slices returned by the previous call, the same inputs give other keys", w)
+			return
+		}
+		k.Count("results_overwritten_then_recomputed", 1)
+	} else {
+		ik2, ck2 := k.R.Bytes(ikl), k.R.Bytes(ckl)
+		copy(ik, ik2) // same backing arrays, new contents
+		copy(ck, ck2)
+		a, b, _, _, e2, err2 := eap.EapAkaPrimePRF(ik, ck, string(id))
+		mk2 := ref.PrfPrime(append(append([]byte{}, ik2...), ck2...), append([]byte("EAP-AKA'"), id...), 208)
+		if err2 != nil || !bytes.Equal(a, mk2[0:16]) || !bytes.Equal(b, mk2[16:48]) || !bytes.Equal(e2, mk2[144:208]) {
+			k.Violate("history", "prf'-uses-stale-key-after-in-place-refresh", "IK'/CK' refreshed in place (same buffers, same identity): the second derivation does not give the keys of the new contents",
+				M{"ik2": core.Hex(ik2), "ck2": core.Hex(ck2), "identity": core.Hex(id)})
+			return
+		}
+		for i, o := range first {
+			if !bytes.Equal(o, held[i]) {
+				k.Violate("history", "prf'-earlier-result-changed-by-later-call", "keys returned by the first call changed when a second derivation was made", w)
+				return
+			}
+		}
+		k.Count("keys_refreshed_in_place", 1)
+	}
 	k.Distinct(fmt.Sprintf("%d|%d|id%s", ikl, ckl, sizeBucket(len(id))))
 	if ikl != ckl {
 		k.Count("unequal_key_lengths", 1)
@@ -487,6 +589,7 @@ func c16(c *core.Ctx) {
 		"five outputs compared with octets 0-15,16-47,48-79,80-143,144-207 of reference PRF'; distinct = (|IK'|, |CK'|, identity size bucket)")
 	c.Info("assumptions", "reference PRF' = hand-built HMAC-SHA-256 iteration (RFC 5448 3.4.1)")
 	c.Family("all-length-pairs", 65*65, func(k *core.Case) { c16One(k, k.Index%65, k.Index/65) })
+	c.Require("results_overwritten_then_recomputed", "keys_refreshed_in_place")
 	c.Family("sampled", c.N(40000, 60000000), func(k *core.Case) {
 		if k.R.Chance(2, 3) {
 			c16One(k, 16, 16)
